@@ -83,6 +83,11 @@ function throwClass(e, protos) {
       const i = protos.indexOf(p);
       if (i >= 0) return 'throw:' + KINDS[i];
     }
+    // an error object of another realm (cross-realm programs): classify by its constructor's name
+    try {
+      const cn = e.constructor && e.constructor.name;
+      if (typeof cn === 'string' && KINDS.includes(cn)) return 'throw:' + cn;
+    } catch (_) {}
     // an error from the outer realm (e.g. RangeError: Maximum call stack size exceeded is in-context; others)
     if (e instanceof RangeError) return 'throw:RangeError';
     if (e instanceof TypeError) return 'throw:TypeError';
